@@ -3,6 +3,7 @@
 
 #![allow(dead_code, clippy::all)]
 mod alloc;
+mod debug;
 mod drivers;
 mod engine;
 mod gen;
@@ -23,6 +24,10 @@ fn main() {
         std::process::exit(2);
     }
     let id = args[1].clone();
+    if id == "DEBUG" {
+        debug::run(args.get(2).map(|s| s.as_str()).unwrap_or(""));
+        return;
+    }
     let mut tier = match std::env::var("VERIF_TIER").as_deref() {
         Ok("thorough") => Tier::Thorough,
         _ => Tier::Quick,
